@@ -613,7 +613,7 @@ class TemplateModel(object):
             'spike_clusters.npy', 'spikes.clusters*.npy', multiple_ok=False, mandatory=False)
         if path is None:
             # Create spike_clusters file if it doesn't exist.
-            tmp_path = self._find_path('spike_templates.npy', 'spikes.clusters*.npy')
+            tmp_path = self._find_path('spike_templates.npy', 'spikes.templates*.npy')
             path = self.dir_path / 'spike_clusters.npy'
             logger.debug("Copying from %s to %s.", tmp_path, path)
             shutil.copy(tmp_path, path)
